@@ -3,7 +3,10 @@
 # Runs the quick check of each seeded change's property against a scratch worktree of /repo HEAD with the
 # patch applied (VERIF_REPO points the checker at it; /repo itself is never touched), and records the
 # verdict in seeded/<id>/meta.json ("detected_by").
-cd /verif
+root=$(cd "$(dirname "$0")/.." && pwd)
+cd "$root"
+export VERIF_ROOT="$root"
+[ -x bin/verifchk ] || (cd engine && GOFLAGS=-mod=mod GOPROXY=off go build -o "$root/bin/verifchk" ./cmd/verifchk) || exit 3
 ids="$@"; [ -z "$ids" ] && ids=$(ls seeded)
 wt=/tmp/sweeprepo-$$
 git -C /repo worktree add -q --detach $wt HEAD || exit 3
@@ -11,7 +14,7 @@ trap 'git -C /repo worktree remove --force '$wt' 2>/dev/null' EXIT
 for id in $ids; do
   prop=$(python3 -c "import json;print(json.load(open('seeded/$id/meta.json'))['property'])")
   git -C $wt checkout -q -- . ; git -C $wt clean -fdq
-  if ! git -C $wt apply /verif/seeded/$id/patch.diff 2>/dev/null; then echo "SWEEP $id $prop PATCH-DOES-NOT-APPLY"; continue; fi
+  if ! git -C $wt apply "$root/seeded/$id/patch.diff" 2>/dev/null; then echo "SWEEP $id $prop PATCH-DOES-NOT-APPLY"; continue; fi
   out=$(VERIF_REPO=$wt timeout 900 ./bin/verifchk check $prop --noevidence --novalidate --maxwall 400 2>&1); rc=$?
   asserts=$(echo "$out" | grep -A1 "^VIOLATION" | sed -n 's/.*harness=\([A-Za-z0-9_]*\) \(assert\|panic\) \([^ ]*\).*/\1:\3/p' | sort -u | head -6 | tr '\n' ' ')
   echo "SWEEP $id $prop exit=$rc $asserts"
